@@ -71,6 +71,7 @@ Record ccase := mkC {
                                         names of the rotated files (a flush with hundreds of rotations
                                         can straddle seconds); replaces the two readings above *)
   (* observed *)
+  c_new_ok : bool;                   (* New returned a channel (no error) *)
   c_blocked : bool;                  (* some Send did not return within the bound *)
   c_cur : rle;
   c_rot : list (N * N * rle)
@@ -139,8 +140,9 @@ Definition SIG_OVERWRITE := 3%N.   (* whole lines gone; input has two rotations 
 Definition SIG_DROP_OVERWRITE := 4%N. (* both of the above *)
 Definition SIG_SIZE := 5%N.        (* a file larger than max that is not a single line *)
 Definition SIG_WRITE_ERR := 6%N.   (* Write returned an error or a wrong count *)
-Definition SIG_BLOCK_UNOPENABLE := 7%N. (* Send blocked; destination cannot be opened *)
+Definition SIG_BLOCK_UNOPENABLE := 7%N. (* a channel was handed out although the destination cannot be opened and its Send blocked (repaired in /repo: a regression) *)
 Definition SIG_BLOCK := 8%N.       (* Send blocked although the destination is fine *)
+Definition SIG_NEW_REFUSED := 9%N. (* New returned an error although the destination can be opened and max >= 1024 *)
 
 (* the property on one set of files: sent = lines handed over, files = everything on disk *)
 Definition size_ok (max : Z) (init : bytes) (files : list bytes) : bool :=
@@ -219,26 +221,34 @@ Definition c_events (c : ccase) : list wev :=
               let k2 := match c_clock c with [] => (fun _ => s2) | l => (fun g => nth g l 0%N) end in
               map (fun l => ESend k1 (unrle l)) ls ++ [EIdle k2]) (c_bursts c).
 
-Definition c_model (c : ccase) : option wl :=
-  wl_run (wl_new (c_max c) (c_openable c) (c_sec0 c) (unrle (c_init c))) (c_events c).
+(* None = no channel; Some None = the writer failed; Some (Some w) = final state *)
+Definition c_model (c : ccase) : option (option wl) :=
+  match wl_new (c_max c) (c_openable c) (c_sec0 c) (unrle (c_init c)) with
+  | None => None
+  | Some w => Some (wl_run w (c_events c))
+  end.
 
 Definition c_mismatch (c : ccase) : bool :=
   match c_model c with
-  | None => true
-  | Some w =>
-      negb (Bool.eqb (wl_blocked w) (c_blocked c)
+  | None => c_new_ok c                       (* the model says New fails *)
+  | Some None => true
+  | Some (Some w) =>
+      negb (c_new_ok c && negb (c_blocked c)
             && beq (rf_cur (wl_rf w)) (unrle (c_cur c))
             && rot_eqb (sort_rot (rf_rot (wl_rf w))) (unrot (c_rot c)))
   end.
 
 Definition c_class (c : ccase) : bool * bool :=
   match c_model c with
-  | Some w => (has_nowin (rf_hist (wl_rf w)), has_samesec (rf_hist (wl_rf w)))
-  | None => (false, false)
+  | Some (Some w) => (has_nowin (rf_hist (wl_rf w)), has_samesec (rf_hist (wl_rf w)))
+  | _ => (false, false)
   end.
 
+Definition c_should_open (c : ccase) : bool := c_openable c && (1024 <=? c_max c).
+
 Definition c_sig (c : ccase) : N :=
-  if c_blocked c then (if c_openable c then SIG_BLOCK else SIG_BLOCK_UNOPENABLE)
+  if negb (c_new_ok c) then (if c_should_open c then SIG_NEW_REFUSED else 0%N)
+  else if c_blocked c then (if c_openable c then SIG_BLOCK else SIG_BLOCK_UNOPENABLE)
   else
     let init := unrle (c_init c) in
     let files := map snd (unrot (c_rot c)) ++ [unrle (c_cur c)] in
@@ -257,7 +267,7 @@ Definition violations (cs : list case) : list (N * N) :=
     if (s =? 0)%N then [] else [(case_id c, s)]) cs.
 
 (* tag bits: 1 a rotation happened, 2 rotation without newline in the window, 4 two rotations in
-   one second, 8 outside remove/rename, 16 rotation at (re)open, 32 channel case, 64 Send blocked *)
+   one second, 8 outside remove/rename, 16 rotation at (re)open, 32 channel case, 64 New refused to create the channel *)
 Definition hist_tag (h : list hent) : N :=
   ((if existsb is_rot h then 1 else 0)
    + (if has_nowin h then 2 else 0)
@@ -271,6 +281,6 @@ Definition tags (cs : list case) : list (N * N) :=
         ((match w_model w with Some (st, _) => hist_tag (rf_hist st) | None => 0 end)
          + (if existsb (fun o => match o with CRemove | CMove => true | _ => false end) (w_ops w) then 8 else 0))%N
     | CC k =>
-        (32 + (match c_model k with Some w => hist_tag (rf_hist (wl_rf w)) | None => 0 end)
-         + (if c_blocked k then 64 else 0))%N
+        (32 + (match c_model k with Some (Some w) => hist_tag (rf_hist (wl_rf w)) | _ => 0 end)
+         + (if c_new_ok k then 0 else 64))%N
     end)) cs.
